@@ -14,7 +14,7 @@ RULE = {"C19": "four helpers, each driven by random sample sequences under the p
                "timeouts n/1e6 for whole-microsecond n, landings exactly on the timeout).  Non-trivial = sequence with >=2 "
                "state changes / True results / passed low-level records / expiry flips; distinct = hash of the sequence."}
 RULE["C19"] += '  Also: two Toggle / ButtonDebouncer objects on one button sampled in turns, truthy non-bool button levels, cases starting at FPGA time exactly 0.'
-REQUIRED = {"C19": {"toggle-edge-flip": 2000, "toggle-held-no-flip": 2000, "toggle-on-off-pair": 500, "toggle-real-joystick-case": 20, "toggle-two-objects-on-one-button": 100, "button-down-while-the-object-is-built": 100, "filter-record-created-at-another-time": 1000, "clock-starts-at-zero": 30, "debouncer-two-objects-on-one-button": 50, "toggle-nonbool-levels": 50,
+REQUIRED = {"C19": {"toggle-edge-flip": 2000, "toggle-held-no-flip": 2000, "toggle-on-off-pair": 500, "toggle-real-joystick-case": 20, "toggle-two-objects-on-one-button": 100, "debouncer-constructed-default": 20, "debouncer-constructed-keyword": 20, "button-down-while-the-object-is-built": 100, "filter-record-created-at-another-time": 1000, "clock-starts-at-zero": 30, "debouncer-two-objects-on-one-button": 50, "toggle-nonbool-levels": 50,
                     "toggle-debounce-flip": 300, "toggle-debounce-suppressed-edge": 100,
                     "debouncer-true": 1000, "debouncer-suppressed-press": 1000, "debouncer-required-true": 300, "debouncer-exact-strict": 30,
                     "filter-bypass-pass": 1000, "filter-low-pass": 500, "filter-low-suppressed": 1000, "filter-through-real-logger": 50,
@@ -211,10 +211,19 @@ def run_debouncer(acc, case):
     period = case["period_us"]
     pv = period // 1000000 if case.get("period_int") else period / 1e6
     def mk():
-        d_ = ButtonDebouncer(joy, 2, pv) if not case.get("via_setter") else ButtonDebouncer(joy, 2)
+        how = case.get("ctor", "positional")
         if case.get("via_setter"):
+            d_ = ButtonDebouncer(joy, 2)
             d_.set_debounce_period(pv)
+        elif how == "default":
+            d_ = ButtonDebouncer(joy, 2)                    # "Defaults to 0.5 seconds"
+        elif how == "keyword":
+            d_ = ButtonDebouncer(joystick=joy, buttonnum=2, period=pv)
+        else:
+            d_ = ButtonDebouncer(joy, 2, pv)
         return d_
+    if case.get("ctor") in ("default", "keyword") and not case.get("via_setter"):
+        acc.ev("debouncer-constructed-" + case["ctor"])
     # one debouncer, or two on the same joystick object / button / period sampled in turns, each judged on its own results
     objs = [mk(), mk()] if case.get("twin") else [mk()]
     st = [{"last_true": None, "trues": 0} for _ in objs]
@@ -531,8 +540,14 @@ def gen_case(rng, kind):
             s[1] = s[1] or rng.random() < 0.5        # mostly pressed: exercises the rate limit
             if rng.random() < 0.15:
                 s[0] = p if rng.random() < 0.6 else p + rng.choice([-1, 1]) if not grid else p   # land on the period
-        return _maybe_zero(rng, _maybe_twin(rng, {"kind": "debouncer", "grid": grid, "period_us": p, "period_int": p % 1000000 == 0 and rng.random() < 0.5,
-                                                  "via_setter": rng.random() < 0.3, "samples": samples}))
+        c_ = {"kind": "debouncer", "grid": grid, "period_us": p, "period_int": p % 1000000 == 0 and rng.random() < 0.5,
+              "via_setter": rng.random() < 0.3, "samples": samples, "ctor": rng.choice(["positional", "positional", "keyword", "default"])}
+        if c_["ctor"] == "default" and not c_["via_setter"]:
+            c_["period_us"], c_["period_int"], c_["grid"] = 500000, False, False
+            for s_ in samples:
+                if s_[0] == p:
+                    s_[0] = 500000
+        return _maybe_zero(rng, _maybe_twin(rng, c_))
     if kind == "filter":
         import logging
         period = rng.choice([0.5, 1.0, 3, 0.25, 2.0, 0.125])
